@@ -31,6 +31,9 @@ type World struct {
 	StrayProofs bool
 	// NoBig: no payout batches / wallet sweeps (transactions with hundreds of outputs or inputs)
 	NoBig bool
+	// SweepNext: the previous block carried a payout batch of at least 64 outputs; the next block sweeps them up
+	// again (a consolidation transaction with more inputs than "a few dozen", in the same transaction version)
+	SweepNext int // 0 no, 1 v1, 2 v2
 }
 
 // NewWorld registers the pool's standard locks.
@@ -1801,6 +1804,12 @@ func (b *Builder) Fanout() bool {
 		left = new(big.Int).Sub(left, v)
 	}
 	b.label(fmt.Sprintf("fanout-%d", n))
+	if n >= 64 && rapid.Bool().Draw(b.T, "sweepNext") {
+		b.W.SweepNext = 1
+		if v2 {
+			b.W.SweepNext = 2
+		}
+	}
 	if v2 {
 		b.finishV2(types.V2Transaction{SiacoinInputs: b.v2Inputs(picked), SiacoinOutputs: outs}, SignOpts{})
 	} else {
@@ -1811,8 +1820,13 @@ func (b *Builder) Fanout() bool {
 
 // Sweep consolidates every spendable output (at least 8, at most 300) into one output in one transaction (a wallet
 // sweep): a block that updates many leaves at once and a multiproof over many leaves.
-func (b *Builder) Sweep() bool {
+func (b *Builder) Sweep(version ...int) bool {
 	v2 := b.v2Allowed() && (!b.v1Allowed() || rapid.Bool().Draw(b.T, "sweepV2"))
+	if len(version) > 0 && version[0] == 1 && b.v1Allowed() {
+		v2 = false
+	} else if len(version) > 0 && version[0] == 2 && b.v2Allowed() {
+		v2 = true
+	}
 	if !v2 && !b.v1Allowed() {
 		return false
 	}
